@@ -1,3 +1,43 @@
-From YV Require Import PyBase Token.
-Example c19_smoke : skip_space [] = [].
+(* C19 -- the unknowns list names exactly the undeclared macros/environments
+   used in text.  Only statements here, closed by `exact`.  Model:
+   coq/model/Expand.v (expand_macro, begin_environment), Exec.v.
+
+   Proved: the step that meets an undeclared macro name outside maths
+   appends it unless it is listed already (so the list has no repetition and
+   keeps the order of first use), inside maths it leaves the list alone, and
+   a declared name is never put on the list by that step; the list is empty
+   when a document starts.  Not proved: that no other step of the expander
+   changes the list, and which uses the expander reaches (comments, skipped
+   regions); compared with the implementation and decided by the oracle of
+   harness/props/c19.py on every case of the parser stream. *)
+From YV Require Import PyBase Token PState Parser Expand Exec ExpandSites.
+Open Scope Z_scope.
+
+Theorem C19_add_once_in_order : forall l name,
+  NoDup l ->
+  NoDup (add_unknown l name) /\ In name (add_unknown l name) /\
+  (exists r, add_unknown l name = l ++ r) /\
+  (forall x, In x (add_unknown l name) <-> In x l \/ x = name).
+Proof. exact add_unknown_spec. Qed.
+Print Assumptions C19_add_once_in_order.
+
+Theorem C19_undeclared_macro : forall T rd rec fuel st buf t math,
+  assoc (txt t) (macros st) = None ->
+  exists st',
+    expand_macro T rd rec fuel st buf t math = Ok (st', ([ActionT (pos t)], skip_space buf)) /\
+    unknowns st' = (if math then unknowns st else add_unknown (unknowns st) (txt t)) /\
+    macros st' = macros st /\ environs st' = environs st.
+Proof. exact expand_macro_undeclared. Qed.
+Print Assumptions C19_undeclared_macro.
+
+Theorem C19_declared_macro_not_listed : forall T rd rec fuel st buf t math mac,
+  assoc (txt t) (macros st) = Some mac ->
+  expand_macro T rd rec fuel st buf t math =
+  expand_arguments T rd rec fuel st (skip_space buf) mac (pos t).
+Proof. exact expand_macro_declared. Qed.
+Print Assumptions C19_declared_macro_not_listed.
+
+Example C19_nonvacuous :
+  add_unknown (add_unknown (add_unknown [] [92; 97]%N) [92; 98]%N) [92; 97]%N
+  = [[92; 97]; [92; 98]]%N.
 Proof. reflexivity. Qed.
